@@ -50,7 +50,15 @@ def chk_after_create(F, E, body, s):
     if mc is None:
         return False
     ins = [c for c in mc.calls() if c.callee.endswith("HashMap::insert")]
-    has = [c for c in mc.calls() if c.callee.endswith("HashMap::contains_key")]
+    def is_membership(c):
+        if c.callee.endswith("HashMap::contains_key"):
+            return True
+        wb = F.bodies.get(c.callee)            # `fn has(&self, k) -> bool { self.0.contains_key(k) }`
+        if wb is None or wb.local_ty(0) != "bool" or len(wb.calls()) != 1:
+            return False
+        w = wb.calls()[0]
+        return w.callee.endswith("HashMap::contains_key") and w.dest["local"] == 0 and not w.dest["proj"]
+    has = [c for c in mc.calls() if is_membership(c)]
     if not ins or not has:
         return False
     # every Ok return is preceded by contains_key==true or by the insert
@@ -655,7 +663,10 @@ def chk_analyzer_errloc(F, E, body, s):
                 if st["k"] == "assign" and st["rv"]["k"] == "aggregate" and st["rv"].get("variant") == "DataTypeMismatch":
                     return False
     pe = F.one("Program::populate_error_location")
-    return pe is not None and bool(pe.calls_to("Program::get_prev_location"))
+    if pe is None:
+        return False
+    from lib import with_helpers
+    return any(hb.calls_to("Program::get_prev_location") for hb in with_helpers(F, pe))
 
 
 def chk_analyzer_numbered(F, E, body, s):
